@@ -7,13 +7,27 @@ and admission. (Retry pacing and the time bound are real-time statements: the id
 re-armed at every exit from Idle, `fsm.go:270`; observed by the live engine's pacing monitor.)
 -/
 namespace CoreBGP.Props.C11
-open CoreBGP CoreBGP.Model
+open CoreBGP CoreBGP.Model CoreBGP.Lemmas
 open CoreBGP.Lemmas.PeerLocal
 
 /-- a passive peer has no outbound FSM in any reachable state, hence never dials -/
 theorem passive_never_dials (d : Bool) (s : PState) (h : PReach d true s) :
     s.presentO = false ∧ s.fo.pc = .absent ∧ ∀ l s', (l, s') ∈ next s → l ≠ .dial := by
-  sorry
+  have hi := pinv_reachable h
+  have hpo := hi.pas_out hi.pas
+  have ho := hi.fo_ok.empty hpo
+  refine ⟨hpo, ho, ?_⟩
+  intro l s' hm hl
+  subst hl
+  rcases mem_next hm with ⟨-, h⟩ | ⟨ins, rest, -, h⟩ | h | h | h | h
+  · exact absurd (pMain_label h) (by simp [fsmOnly])
+  · exact absurd (pInstr_label h) (by simp [fsmOnly])
+  · rw [fSteps_absent (i := .out) ho] at h
+    cases h
+  · exact fSteps_inn_no_dial hi h rfl
+  · cases h
+  · obtain ⟨i, m, h⟩ := rsend_label h
+    cases h
 
 /-- when an inbound FSM goes down (any transition to a lower state) the manager stops it and makes
 sure the outbound FSM exists again -/
